@@ -23,7 +23,7 @@ KINDS = ["valid", "valid", "valid", "valid", "wrong-key", "flip-msg", "flip-sig"
 
 
 def plan(tier):
-    n = 250 if tier == "quick" else 8000
+    n = 500 if tier == "quick" else 8000
     return [{"kind": "hyp", "n": n} for _ in range(16)]
 
 
